@@ -5,6 +5,7 @@ import (
 	"fmt"
 	"strings"
 	"sync"
+	"time"
 
 	"github.com/safing/portbase/database"
 	"github.com/safing/portbase/database/query"
@@ -58,7 +59,12 @@ type rawSnap struct {
 	Secret bool   `json:"secret,omitempty"`
 	Crown  bool   `json:"crown,omitempty"`
 	Note   string `json:"note,omitempty"`
-	Err    string `json:"err,omitempty"`
+	// the whole metadata of the stored record
+	Created  int64  `json:"created,omitempty"`
+	Modified int64  `json:"modified,omitempty"`
+	Expires  int64  `json:"expires,omitempty"`
+	Deleted  int64  `json:"deleted,omitempty"`
+	Err      string `json:"err,omitempty"`
 }
 
 type hopRec struct {
@@ -89,7 +95,11 @@ type hkeyState struct {
 }
 
 type hworker struct {
-	spec  *WriterSpec
+	spec *WriterSpec
+	// mod is the interface the load-modify-put operations go through; it carries the
+	// worker's AlwaysMake*/AlwaysSet*Expiry options. Get and Put use the plain one, so
+	// the options' side effects are news to a stored record.
+	mod   *database.Interface
 	keys  map[string]*hkeyState
 	ops   []*hopRec
 	count int
@@ -219,9 +229,30 @@ func (hr *hrun) waitProgress(n int) { hr.gate.wait(n) }
 
 // raw reads the stored record of one key without passing any hook (Query goes to the
 // storage directly).
+func (s *rawSnap) fill(r record.Record) {
+	s.Note = noteOf(r)
+	_, s.Token, _, _, _ = ident(r)
+	if m := r.Meta(); m != nil {
+		s.Secret, s.Crown = !m.CheckPermission(true, false), !m.CheckPermission(false, true)
+		s.Created, s.Modified, s.Expires, s.Deleted = m.Created, m.Modified, m.Expires, m.Deleted
+	}
+}
+
 func (hr *hrun) raw(key string) rawSnap {
 	hr.opMu.Lock()
 	defer hr.opMu.Unlock()
+	if hr.w.prov != nil {
+		// injected runtime database: the harness owns the provider's map
+		hr.w.prov.mu.Lock()
+		r := hr.w.prov.m[key]
+		hr.w.prov.mu.Unlock()
+		var s rawSnap
+		if r != nil {
+			s.fill(r)
+			s.Exists = r.Meta().CheckValidity()
+		}
+		return s
+	}
 	it, err := hr.iface.Query(query.New(hr.w.db + ":" + key))
 	if err != nil {
 		return rawSnap{Err: errString(err)}
@@ -232,10 +263,9 @@ func (hr *hrun) raw(key string) rawSnap {
 		if k == key {
 			// the key belongs to the calling worker and no operation on it is in
 			// progress: meta and Note may be read
-			s.Exists, s.Token, s.Note = true, tok, noteOf(r)
-			if m := r.Meta(); m != nil {
-				s.Secret, s.Crown = !m.CheckPermission(true, false), !m.CheckPermission(false, true)
-			}
+			_ = tok
+			s.fill(r)
+			s.Exists = true
 		}
 	}
 	if e := it.Err(); e != nil {
@@ -271,14 +301,19 @@ func (wk *hworker) do(hr *hrun, op *OpSpec) {
 		fn = func() error { return hr.iface.Put(nr) }
 		after = func() { wk.keys[key] = &hkeyState{exists: true, score: op.Score, tag: op.Tag} }
 	case "secret":
-		fn = func() error { return hr.iface.MakeSecret(full) }
+		fn = func() error { return wk.mod.MakeSecret(full) }
 	case "crown":
-		fn = func() error { return hr.iface.MakeCrownJewel(full) }
+		fn = func() error { return wk.mod.MakeCrownJewel(full) }
+	case "expiry":
+		exp := time.Now().Unix() + 1000000
+		fn = func() error { return wk.mod.SetAbsoluteExpiry(full, exp) }
+	case "relexpiry":
+		fn = func() error { return wk.mod.SetRelativateExpiry(full, 1000000) }
 	case "insert":
 		note := fmt.Sprintf("n%d", rec.Idx)
-		fn = func() error { return hr.iface.InsertValue(full, "Note", note) }
+		fn = func() error { return wk.mod.InsertValue(full, "Note", note) }
 	case "del":
-		fn = func() error { return hr.iface.Delete(full) }
+		fn = func() error { return wk.mod.Delete(full) }
 		after = func() {
 			if st == nil {
 				return
@@ -330,7 +365,9 @@ func runHooks(w *world, sc *Scenario) *hrun {
 		hr.hooks = append(hr.hooks, h)
 	}
 	for i := range sc.Writers {
-		hr.workers = append(hr.workers, &hworker{spec: &sc.Writers[i], keys: map[string]*hkeyState{}})
+		ms := sc.Writers[i].Iface
+		ms.Local, ms.Internal, ms.Cache = true, true, 0
+		hr.workers = append(hr.workers, &hworker{spec: &sc.Writers[i], mod: ms.open(), keys: map[string]*hkeyState{}})
 	}
 	// hooks with RegAt == 0 are registered, in order, before the first operation
 	for _, h := range hr.hooks {
@@ -498,7 +535,7 @@ func (hr *hrun) judge(b *vlib.Batch) {
 				phases = []string{"preget", "postget"}
 			case "put":
 				phases = []string{"preput"}
-			case "del", "secret", "crown", "insert":
+			default: // load-modify-put: del secret crown expiry relexpiry insert
 				phases = []string{"preget", "postget", "preput"}
 			}
 			mandatory := map[hp]bool{}
